@@ -735,9 +735,9 @@ pub fn run(args: &Args) -> i32 {
         let mut rng = Rng::new(args.case_seed(c));
         if c % stress_every == stress_every - 1 || args.has("--stress-only") {
             let (th, ops) = if small { (3, 40) } else { (rng.range(2, 16), if args.thorough { 6000 } else { 1500 }) };
-            stress(&mut rng, &mut rep, c, th, ops);
+            guard_case(&mut rep, c, |rep| stress(&mut rng, rep, c, th, ops));
         } else {
-            single_history(&mut rng, &mut rep, c, hist_len);
+            guard_case(&mut rep, c, |rep| single_history(&mut rng, rep, c, hist_len));
         }
     }
     rep.finish();
